@@ -625,3 +625,209 @@ func gtExpr(e ast.Expr) (*ast.BinaryExpr, bool) {
 }
 
 var recvRe = map[string]*regexp.Regexp{}
+
+// singleDef: e is a local variable of fd that is written exactly once, by
+// `x := expr` (or `var x = expr`) with one value per name; returns expr. Rules
+// that evaluate a condition use it to see through a named condition
+// (`isDefine := op == token.Define; if isDefine && …`).
+func singleDef(p *packages.Package, fd *ast.FuncDecl, e ast.Expr) ast.Expr {
+	id, ok := ast.Unparen(e).(*ast.Ident)
+	if !ok || fd == nil || fd.Body == nil {
+		return nil
+	}
+	obj, ok := p.TypesInfo.ObjectOf(id).(*types.Var)
+	if !ok || obj.IsField() {
+		return nil
+	}
+	var def ast.Expr
+	writes := 0
+	ast.Inspect(fd.Body, func(n ast.Node) bool {
+		switch x := n.(type) {
+		case *ast.AssignStmt:
+			for i, l := range x.Lhs {
+				if lid, ok := l.(*ast.Ident); ok && p.TypesInfo.ObjectOf(lid) == types.Object(obj) {
+					writes++
+					if len(x.Lhs) == len(x.Rhs) && (x.Tok == token.DEFINE || x.Tok == token.ASSIGN) {
+						def = x.Rhs[i]
+					} else {
+						def = nil
+						writes++
+					}
+				}
+			}
+		case *ast.IncDecStmt:
+			if lid, ok := x.X.(*ast.Ident); ok && p.TypesInfo.ObjectOf(lid) == types.Object(obj) {
+				writes += 2
+			}
+		case *ast.ValueSpec:
+			for i, nm := range x.Names {
+				if p.TypesInfo.Defs[nm] == types.Object(obj) {
+					writes++
+					if i < len(x.Values) && len(x.Values) == len(x.Names) {
+						def = x.Values[i]
+					}
+				}
+			}
+		case *ast.UnaryExpr:
+			if x.Op == token.AND {
+				if lid, ok := ast.Unparen(x.X).(*ast.Ident); ok && p.TypesInfo.ObjectOf(lid) == types.Object(obj) {
+					writes += 2 // address taken
+				}
+			}
+		case *ast.RangeStmt:
+			for _, k := range []ast.Expr{x.Key, x.Value} {
+				if lid, ok := k.(*ast.Ident); ok && p.TypesInfo.ObjectOf(lid) == types.Object(obj) {
+					writes += 2
+				}
+			}
+		}
+		return true
+	})
+	if writes != 1 {
+		return nil
+	}
+	return def
+}
+
+// execFor: the statements of list that run when the subject expression has
+// the constant value val - a switch on the subject is replaced by the clause
+// it selects, an if-chain whose conditions compare the subject with constants
+// by the branch taken. Statements that do not depend on the subject are kept
+// as they are. Rules use it to ask "what does this arm do for token T"
+// whatever the dispatch is written as.
+func execFor(p *packages.Package, list []ast.Stmt, isSubject func(ast.Expr) bool, val types.Object) []ast.Stmt {
+	var evalCond func(e ast.Expr) (bool, bool)
+	evalCond = func(e ast.Expr) (bool, bool) {
+		switch x := ast.Unparen(e).(type) {
+		case *ast.UnaryExpr:
+			if x.Op == token.NOT {
+				v, ok := evalCond(x.X)
+				return !v, ok
+			}
+		case *ast.BinaryExpr:
+			switch x.Op {
+			case token.LAND, token.LOR:
+				l, ok1 := evalCond(x.X)
+				r, ok2 := evalCond(x.Y)
+				if x.Op == token.LAND {
+					if (ok1 && !l) || (ok2 && !r) {
+						return false, true
+					}
+					return l && r, ok1 && ok2
+				}
+				if (ok1 && l) || (ok2 && r) {
+					return true, true
+				}
+				return l || r, ok1 && ok2
+			case token.EQL, token.NEQ:
+				var other ast.Expr
+				switch {
+				case isSubject(x.X):
+					other = x.Y
+				case isSubject(x.Y):
+					other = x.X
+				default:
+					return false, false
+				}
+				co := namedValue(p, other)
+				if co == nil {
+					return false, false
+				}
+				return (co == val) == (x.Op == token.EQL), true
+			}
+		}
+		return false, false
+	}
+	var out []ast.Stmt
+	var walk func(list []ast.Stmt)
+	walk = func(list []ast.Stmt) {
+		for _, st := range list {
+			switch x := st.(type) {
+			case *ast.BlockStmt:
+				walk(x.List)
+			case *ast.IfStmt:
+				v, ok := evalCond(x.Cond)
+				if !ok {
+					out = append(out, st)
+					continue
+				}
+				if x.Init != nil {
+					out = append(out, x.Init)
+				}
+				if v {
+					walk(x.Body.List)
+				} else if x.Else != nil {
+					walk([]ast.Stmt{x.Else})
+				}
+			case *ast.SwitchStmt:
+				if x.Tag == nil {
+					// tagless: first clause whose condition holds
+					done := false
+					undecided := false
+					var def *ast.CaseClause
+					for _, cl := range x.Body.List {
+						cc := cl.(*ast.CaseClause)
+						if cc.List == nil {
+							def = cc
+							continue
+						}
+						for _, e := range cc.List {
+							v, ok := evalCond(e)
+							if !ok {
+								undecided = true
+							}
+							if ok && v && !done && !undecided {
+								walk(cc.Body)
+								done = true
+							}
+						}
+					}
+					if undecided {
+						out = append(out, st)
+					} else if !done && def != nil {
+						walk(def.Body)
+					}
+					continue
+				}
+				if !isSubject(x.Tag) {
+					out = append(out, st)
+					continue
+				}
+				var def, hit *ast.CaseClause
+				for _, cl := range x.Body.List {
+					cc := cl.(*ast.CaseClause)
+					if cc.List == nil {
+						def = cc
+					}
+					for _, e := range cc.List {
+						if co := namedValue(p, e); co != nil && co == val {
+							hit = cc
+						}
+					}
+				}
+				if hit == nil {
+					hit = def
+				}
+				if hit != nil {
+					walk(hit.Body)
+				}
+			default:
+				out = append(out, st)
+			}
+		}
+	}
+	walk(list)
+	return out
+}
+
+// namedValue: the constant or package-level variable (a sentinel such as an
+// error value) an expression names.
+func namedValue(p *packages.Package, e ast.Expr) types.Object {
+	if co := ConstObj(p, e); co != nil {
+		return co
+	}
+	if v, ok := ObjOf(p, e).(*types.Var); ok && !v.IsField() && v.Pkg() != nil && v.Parent() == v.Pkg().Scope() {
+		return v
+	}
+	return nil
+}
